@@ -4,9 +4,9 @@ package main
 
 import (
 	"fmt"
-	"os"
 	"go/constant"
 	"go/types"
+	"os"
 	"strings"
 
 	"golang.org/x/tools/go/ssa"
@@ -22,8 +22,8 @@ type SEnv struct {
 	bound   map[string]bool
 	callee  *ssa.Function
 	applies *[]applyRec // applications of function-valued parameters met while translating
-	pol     int       // +1: the formula is assumed; -1: it is to be proved; 0: unknown / both
-	qfacts  *[]string // typing facts about terms that mention variables of the innermost quantifier
+	pol     int         // +1: the formula is assumed; -1: it is to be proved; 0: unknown / both
+	qfacts  *[]string   // typing facts about terms that mention variables of the innermost quantifier
 }
 
 // trGoal / trAssume translate a clause that will be asserted / assumed. The polarity decides how
@@ -121,6 +121,28 @@ func (c *FnCtx) specEnvFor(st, old *State, results []Val) *SEnv {
 // resolveName finds the value a source-level name denotes at the current point.
 // header/sub: when evaluating a loop invariant, phis of the header are substituted.
 func (c *FnCtx) resolveName(name string, loop *Loop, sub map[ssa.Value]Val, st *State) (Val, bool) {
+	// address-taken / captured variables live in a cell: their name always denotes the current
+	// content of the cell (never an earlier load of it)
+	if p, isParam := c.names[name]; isParam && st == c.entry {
+		// at function entry a parameter denotes the argument (its address-taken copy is not yet initialised)
+		return c.val(p), true
+	}
+	if len(c.nameAll["&"+name]) == 1 {
+		v := c.nameAll["&"+name][0]
+		if b, ok := c.env[v]; ok && c.definedHere(v) {
+			l := c.ptrLoc(b.V.T, derefType(v.Type()), true)
+			return c.loadLoc(st, l), true
+		}
+	}
+	if !strings.HasSuffix(c.fn.Name(), "$bound") {
+		for _, fv := range c.fn.FreeVars {
+			if fv.Name() == name {
+				if pt := derefType(fv.Type()); pt != nil {
+					return c.loadLoc(st, c.ptrLoc(c.env[fv].V.T, pt, false)), true
+				}
+			}
+		}
+	}
 	cands := c.nameAll[name]
 	var pick ssa.Value
 	if strings.HasPrefix(name, "done") && len(name) > 4 {
@@ -258,6 +280,9 @@ func (c *FnCtx) evalAt(v ssa.Value, loop *Loop, sub map[ssa.Value]Val) Val {
 
 // trInvariant translates a loop invariant. sub == nil: at the header (phi constants).
 func (c *FnCtx) trInvariant(l *Loop, inv *Clause, st *State, sub map[ssa.Value]Val, items *[]Item) string {
+	if inv.AutoState != nil {
+		return inv.AutoState(st)
+	}
 	if inv.Auto != nil {
 		return inv.Auto(func(v interface{}) string { return c.evalAt(v.(ssa.Value), l, sub).T })
 	}
@@ -755,6 +780,18 @@ func (e *SEnv) call(n *ECall) Val {
 				return Val{T: c.mapLen(e.st, a), S: SInt, GT: types.Typ[types.Int]}
 			}
 			e.fail("len of sort %s", a.S)
+		case "addr":
+			// address of an address-taken local variable
+			id, ok := n.Args[0].(*EIdent)
+			if !ok {
+				e.fail("addr needs a variable name")
+			}
+			for _, v := range c.nameAll["&"+id.Name] {
+				if b, ok := c.env[v]; ok && c.definedHere(v) {
+					return Val{T: b.V.T, S: SInt, GT: v.Type()}
+				}
+			}
+			panic("spec: unknown identifier \"" + id.Name + "\" (addr) in contract of " + c.fnKey())
 		case "isempty":
 			a := e.tr(n.Args[0])
 			return Val{T: sEq(a.T, fmt.Sprintf("((as const %s) false)", a.S)), S: SBool}
@@ -1183,4 +1220,13 @@ func (c *FnCtx) addSpecAxioms() {
 			c.addAxiom(fmt.Sprintf("spec%d", i), f)
 		}
 	}
+}
+
+// definedHere: the definition of v dominates the block currently being translated.
+func (c *FnCtx) definedHere(v ssa.Value) bool {
+	in, ok := v.(ssa.Instruction)
+	if !ok || c.curBlock == nil {
+		return true
+	}
+	return in.Block() == c.curBlock || in.Block().Dominates(c.curBlock)
 }
